@@ -334,12 +334,38 @@ class Sim:
 # --------------------------------------------------------------------------- calls
 
 
+SHARED = {}  # schema name -> one MappingSchema object handed to every thread of the run (created after the warm-up, so its caches are cold)
+
+
+def _shared_schema(name):
+    from sim.histsim import child as hchild
+    from sqlglot.schema import MappingSchema
+
+    s = SHARED.get(name)
+    if s is None:
+        s = MappingSchema(hchild.SCHEMAS[name])  # "alone" reference runs and the warm-up phase: a private object
+    return s
+
+
 def run_call(call):
     """Canonical output of one call. Standard ops are shared with histsim; the rest are the lazy-loading entry points."""
     from sim.histsim import child as hchild
 
     op = call["op"]
     try:
+        if call.get("shared_schema") and op in ("optimize", "qualify"):
+            # an application-wide schema object passed to concurrent optimize()/qualify() calls: lookups fill its caches
+            import sqlglot
+
+            tree = sqlglot.parse_one(call["sql"], read=call.get("read"))
+            sch = _shared_schema(call["schema"])
+            if op == "optimize":
+                from sqlglot.optimizer import optimize
+
+                return ["ok", optimize(tree, schema=sch, dialect=call.get("read")).sql(call.get("read"))]
+            from sqlglot.optimizer.qualify import qualify
+
+            return ["ok", qualify(tree, schema=sch, dialect=call.get("read")).sql(call.get("read"))]
         if op == "dialect_get":
             from sqlglot.dialects.dialect import Dialect
 
@@ -408,6 +434,14 @@ def run(req):
         for s_ in scripts:
             for c in s_:
                 run_call(c)
+    SHARED.clear()
+    for s_ in scripts:
+        for c in s_:
+            if c.get("shared_schema") and c.get("schema") not in SHARED:
+                from sim.histsim import child as hchild
+                from sqlglot.schema import MappingSchema
+
+                SHARED[c["schema"]] = MappingSchema(hchild.SCHEMAS[c["schema"]])
     sim = Sim(cfg, scripts, rec.get("schedule"), scope, log_events=bool(req.get("log_events")))
     sim.run(run_call)
     out = {
